@@ -10,10 +10,11 @@
 (* One initial state per member of the family; the program is then         *)
 (* executed statement by statement (one TLC step each).                    *)
 (***************************************************************************)
-EXTENDS Sem
+EXTENDS Sem, Json
 
 CONSTANTS Family,      \* "src" | "dst" | "prog"
-          Scope        \* "quick" | "thorough"
+          Scope,       \* "quick" | "thorough"
+          Emit         \* TRUE: print every member of the family (program + balances) for replay into the real interpreter
 
 \* pools (TLC configuration files cannot hold negative numbers, hence here)
 Big == Scope = "thorough"
@@ -202,4 +203,7 @@ C08_Sem == SaveFirst /\ PlainOn(prog[1].e.v) =>
    LET x == prog[1].e.v  b == Get(bal0, <<x, A>>)
        visible == IF prog[1].all THEN Min(b, 0) ELSE (IF b <= 0 THEN b ELSE Max(0, b - prog[1].sent.amt.v))
    IN SumWhere(S.post, 1, x) <= Max(0, visible)
+\* behaviour generation: every (program, balance sheet) of the family, one JSON line each
+EmitInv == (Emit /\ si = 1 /\ prog # <<>>) =>
+   PrintT("GEN " \o ToJson([stmts |-> prog, bal |-> [a |-> [USD |-> Get(bal0, <<"a", A>>)], b |-> [USD |-> Get(bal0, <<"b", A>>)]]]))
 =============================================================================
